@@ -1,12 +1,11 @@
 import Pfl
-#print axioms Pfl.CFG.treeValid_sound
-#print axioms Pfl.CFG.treeValid_complete
-#print axioms Pfl.CFG.wellFormedT_gen
-#print axioms Pfl.CFG.leftStep_derives
-#print axioms Pfl.CFG.rightStep_derives
-#print axioms Pfl.CFG.derivationValid_sound
-#print axioms Pfl.CFG.leftmostD_valid
-#print axioms Pfl.CFG.rightmostD_valid
+#print axioms Pfl.LabelCodec.readPdaLabel_pdaLabel
+#print axioms Pfl.LabelCodec.readFstLabel_fstLabel
+#print axioms Pfl.LabelCodec.readPdaLabel_pdaLabel_clear
+#print axioms Pfl.LabelCodec.readFstLabel_fstLabel_clear
+#print axioms Pfl.Codec.read_varToText
+#print axioms Pfl.Codec.read_terToText
+#print axioms Pfl.Codec.read_capitalised_unmarked
 #print axioms Pfl.CFG.cfgMem_iff
-#print axioms Pfl.CFG.toNormalForm_lang
-#print axioms Pfl.CFG.llParse_valid
+#print axioms Pfl.Rx.thompson_lang
+#print axioms Pfl.ENFA.langDiff_none_iff
